@@ -297,6 +297,110 @@ func runConcScenario(s concScenario) concResult {
 		rs, err = v.ValidateContext(ctx, revocation.ValidateContextOptions{CertChain: w.chain, AuthenticSigningTime: w.st})
 		return
 	}
+	if s.Kind == "callers-mixed" {
+		// two overlapping calls share the validator's fetcher and need the same CRLs; the first one is cancelled (or its exchanges
+		// panic) while its downloads are in flight. The second one, whose own context is live, must get the reference results.
+		hf, err := corecrl.NewHTTPFetcher(client)
+		if err != nil {
+			panic(err)
+		}
+		hf.Cache = &lockedCache{m: map[string]*corecrl.Bundle{}}
+		v, e := revocation.NewWithOptions(revocation.Options{OCSPHTTPClient: client, CRLFetcher: hf, CertChainPurpose: purpose.CodeSigning})
+		if e != nil {
+			panic(e)
+		}
+		// reference: an undisturbed call through a separate fetcher without cache
+		hf0, _ := corecrl.NewHTTPFetcher(&http.Client{Transport: w.tr})
+		v0, _ := revocation.NewWithOptions(revocation.Options{OCSPHTTPClient: &http.Client{Transport: w.tr}, CRLFetcher: hf0, CertChainPurpose: purpose.CodeSigning})
+		ref, rerr := v0.ValidateContext(context.Background(), revocation.ValidateContextOptions{CertChain: w.chain, AuthenticSigningTime: w.st})
+		if rerr != nil {
+			res.Outcome, res.Error = "error", rerr.Error()
+			return res
+		}
+		refC := canonResults(ref)
+		base := runtime.NumGoroutine()
+		g.gated = true
+		ctxA, cancelA := context.WithCancel(context.Background())
+		defer cancelA()
+		aDone := make(chan struct{})
+		go func() {
+			defer close(aDone)
+			defer func() { recover() }()
+			v.ValidateContext(ctxA, revocation.ValidateContextOptions{CertChain: w.chain, AuthenticSigningTime: w.st})
+		}()
+		g.mu.Lock()
+		need := len(g.held)
+		g.mu.Unlock()
+		arrived := 0
+		timeout := time.After(10 * time.Second)
+	arriveA:
+		for arrived < need {
+			select {
+			case <-g.arriveCh:
+				arrived++
+			case <-timeout:
+				break arriveA
+			}
+		}
+		res.AllArrivedTogether = arrived == need
+		type bret struct {
+			rs []*result.CertRevocationResult
+			err error
+			pv  any
+		}
+		bDone := make(chan bret, 1)
+		go func() {
+			var x bret
+			defer func() {
+				x.pv = recover()
+				bDone <- x
+			}()
+			x.rs, x.err = v.ValidateContext(context.Background(), revocation.ValidateContextOptions{CertChain: w.chain, AuthenticSigningTime: w.st})
+		}()
+		// give the second call time to reach whatever it is going to wait on
+		time.Sleep(30 * time.Millisecond)
+		if s.CancelAfter < 0 {
+			cancelA()
+		}
+		g.mu.Lock()
+		for lv, ch := range g.held {
+			close(ch)
+			delete(g.held, lv)
+		}
+		g.mu.Unlock()
+		select {
+		case x := <-bDone:
+			switch {
+			case x.pv != nil:
+				res.CallersDisagree = fmt.Sprintf("the undisturbed caller panicked: %v", x.pv)
+			case x.err != nil:
+				res.CallersDisagree = "the undisturbed caller got an error: " + x.err.Error()
+			default:
+				got := canonResults(x.rs)
+				for i := range refC {
+					if i >= len(got) || got[i] != refC[i] {
+						res.CallersDisagree = fmt.Sprintf("the undisturbed caller's result for certificate %d is %v, reference %s", i, got, refC[i])
+						break
+					}
+				}
+			}
+		case <-time.After(20 * time.Second):
+			res.Outcome, res.Error = "error", "the undisturbed caller did not return within 20 s"
+			return res
+		}
+		select {
+		case <-aDone:
+		case <-time.After(20 * time.Second):
+			res.Outcome, res.Error = "error", "the disturbed caller did not return within 20 s"
+			return res
+		}
+		res.Outcome, res.Results = "returned", refC
+		res.Inflight = int(atomic.LoadInt32(&g.inflight))
+		if n := waitGoroutines(base, time.Second); n > base {
+			res.Leaked = n - base
+		}
+		return res
+	}
 	if s.Kind == "callers" {
 		// one shared validator, client, fetcher and cache; every caller must get the reference result
 		v, e := revocation.NewWithOptions(revocation.Options{OCSPHTTPClient: client, CRLFetcher: fetcher, CertChainPurpose: purpose.CodeSigning})
@@ -696,6 +800,12 @@ func genC17(r *Runner) {
 		}
 		add(concScenario{Kind: "callers", Mode: "ocsp", Beh: []string{"good", "revoked", "ocsp-only-unknown"}, Callers: c, Rounds: 3})
 	}
+	// overlapping callers, the first one disturbed while its downloads are in flight
+	for _, beh := range [][]string{{"crl-only-clean"}, {"crl-only-clean", "crl-only-listed"}, {"unknown-crl-clean", "crl-only-clean"}, {"crl-only-listed", "good", "crl-only-clean"}} {
+		add(concScenario{Kind: "callers-mixed", Mode: "full", Beh: beh, CancelAfter: -1})                 // the first caller is cancelled
+		add(concScenario{Kind: "callers-mixed", Mode: "full", Beh: beh, CancelAfter: 0, PanicAt: live(beh)}) // the first caller's exchanges panic
+		add(concScenario{Kind: "callers-mixed", Mode: "full", Beh: beh, CancelAfter: 0})                  // nobody is disturbed
+	}
 	// run: groups in child processes; a crashed group is re-run one scenario per child
 	results := map[string]concResult{}
 	crashes := map[string]string{}
@@ -795,6 +905,13 @@ func genC17(r *Runner) {
 		order := s.Order
 		if order == nil {
 			order = []int{}
+		}
+		if s.Kind == "callers-mixed" {
+			// the panics (if any) belong to the disturbed caller; the case is about the undisturbed one
+			f = []any{}
+			for i := 0; i < m; i++ {
+				f = append(f, map[string]any{"val": 2000 + i})
+			}
 		}
 		inp := map[string]any{"m": m, "f": f, "order": order, "kind": s.Kind, "compare_results": s.Mode == "full" && ref != nil && (s.Kind == "perm" || s.Kind == "callers" || s.Kind == "ref"),
 			"beh": s.Beh, "mode": s.Mode, "cancel_after": s.CancelAfter, "callers": s.Callers, "real_fetcher": s.RealFetcher}
